@@ -47,3 +47,108 @@ def integrand(n: int, bs, beta0, a) -> Node:
 
 def poly(coefs, x) -> Node:
     return dag.addn([dag.mul(c, dag.power(x, i)) for i, c in enumerate(coefs)])
+
+
+# -- polynomials in (a, l) with scalar (dag) or matrix (Arr) coefficients ------------------------------
+from .arr import Arr, matmul as _matmul
+
+
+def vadd(x, y):
+    if isinstance(x, Arr) or isinstance(y, Arr):
+        if not isinstance(x, Arr):
+            raise TypeError("scalar + matrix")
+        if not isinstance(y, Arr):
+            raise TypeError("matrix + scalar")
+        return Arr([dag.add(p, q) for p, q in zip(x.flat(), y.flat())], x.shape)
+    return dag.add(x, y)
+
+
+def vmul(x, y):
+    """ordered product: x on the left"""
+    if isinstance(x, Arr) and isinstance(y, Arr):
+        return _matmul(x, y, dag.add, dag.mul)
+    if isinstance(x, Arr):
+        return Arr([dag.mul(p, y) for p in x.flat()], x.shape)
+    if isinstance(y, Arr):
+        return Arr([dag.mul(x, q) for q in y.flat()], y.shape)
+    return dag.mul(x, y)
+
+
+class Poly2:
+    """sum c[(i,j)] a^i l^j, truncated at a-degree N; coefficients scalar or matrix; products are ordered."""
+
+    def __init__(self, N, terms=None):
+        self.N = N
+        self.t = dict(terms or {})
+
+    def add(self, o):
+        r = Poly2(self.N, self.t)
+        for k, v in o.t.items():
+            r.t[k] = vadd(r.t[k], v) if k in r.t else v
+        return r
+
+    def mul(self, o):
+        r = Poly2(self.N)
+        for (i1, j1), v1 in self.t.items():
+            for (i2, j2), v2 in o.t.items():
+                if i1 + i2 > self.N:
+                    continue
+                k = (i1 + i2, j1 + j2)
+                v = vmul(v1, v2)
+                r.t[k] = vadd(r.t[k], v) if k in r.t else v
+        return r
+
+    def scale(self, c):
+        return Poly2(self.N, {k: vmul(c, v) for k, v in self.t.items()})
+
+    def integrate_l(self):
+        """int_0^l ... dl'"""
+        return Poly2(self.N, {(i, j + 1): vmul(dag.const(Fraction(1, j + 1)), v) for (i, j), v in self.t.items()})
+
+    def power(self, n):
+        r = None
+        for _ in range(n):
+            r = self if r is None else r.mul(self)
+        return r
+
+    def coeff_a(self, i, l):
+        """coefficient of a^i as a value, with l substituted"""
+        acc = None
+        for (ii, j), v in self.t.items():
+            if ii != i:
+                continue
+            term = vmul(dag.power(l, j), v) if j else v
+            acc = term if acc is None else vadd(acc, term)
+        return acc
+
+
+def running_coupling_series(betas, N, sign=+1):
+    """a(l) with a(0)=a solving da/dl = sign * sum_k betas[k] a^(k+2), as Poly2 in (a,l) through a^N"""
+    cur = Poly2(N, {(1, 0): dag.ONE})
+    for _ in range(N):
+        rhs = Poly2(N)
+        for k, b in enumerate(betas):
+            if k + 2 > N:
+                break
+            rhs = rhs.add(cur.power(k + 2).scale(dag.mul(sign, b)))
+        cur = Poly2(N, {(1, 0): dag.ONE}).add(rhs.integrate_l())
+    return cur
+
+
+def path_ordered_exponential(gammas, betas, N, one, sign_beta=+1):
+    """K(l) = P exp int_0^l gamma(a(l')) dl', gamma(a) = sum_k gammas[k] a^(k+1), later l on the left;
+    returned as Poly2 through a^N.  `one` is the unit (dag.ONE or identity Arr)."""
+    al = running_coupling_series(betas, N, sign_beta)
+    gam = Poly2(N)
+    for k, g in enumerate(gammas):
+        if k + 1 > N:
+            break
+        gam = gam.add(al.power(k + 1).scale_left(g) if hasattr(al, "scale_left") else _scale_left(al.power(k + 1), g))
+    K = Poly2(N, {(0, 0): one})
+    for _ in range(N):
+        K = Poly2(N, {(0, 0): one}).add(gam.mul(K).integrate_l())
+    return K
+
+
+def _scale_left(p: Poly2, g):
+    return Poly2(p.N, {k: vmul(g, v) for k, v in p.t.items()})
